@@ -654,7 +654,7 @@ class GraphParser:
                     n_trig = TaskTrigger.standardise_name(trig)
                     if n_trig != trig:
                         if offset:
-                            this = r'\b%s\b%s:%s(?!:)' % (
+                            this = r'\b%s\b%s:%s\b(?!:)' % (
                                 re.escape(name),
                                 re.escape(offset),
                                 re.escape(trig)
